@@ -86,7 +86,23 @@ func runnerFieldStores(fns []*ssa.Function, runnerT *types.Named) map[*ssa.Funct
 								add(fieldNameOf(fa) + "[]")
 							}
 						}
+					case *ssa.MapUpdate:
+						// r.F[k] = v: the map a field holds is written
+						if ld, ok := x.Map.(*ssa.UnOp); ok && ld.Op == token.MUL {
+							if fa, ok := ld.X.(*ssa.FieldAddr); ok && rv[fa.X] {
+								add(fieldNameOf(fa) + "[map]")
+							}
+						}
 					case *ssa.Call:
+						// delete(r.F, k), clear(r.F)
+						if bi, ok := x.Common().Value.(*ssa.Builtin); ok && (bi.Name() == "delete" || bi.Name() == "clear") && len(x.Common().Args) > 0 {
+							if ld, ok := x.Common().Args[0].(*ssa.UnOp); ok && ld.Op == token.MUL {
+								if fa, ok := ld.X.(*ssa.FieldAddr); ok && rv[fa.X] {
+									add(fieldNameOf(fa) + "[map]")
+								}
+							}
+							continue
+						}
 						callee := x.Common().StaticCallee()
 						if callee == nil || sum[callee] == nil || len(x.Common().Args) == 0 || !rv[x.Common().Args[0]] {
 							continue
@@ -300,6 +316,13 @@ func runC32(p *Prog, r *Result) {
 							recv, what = fa.X, "stores field "+fieldNameOf(fa)
 							storedFields = []string{fieldNameOf(fa)}
 						}
+					case *ssa.MapUpdate:
+						if ld, ok := x.Map.(*ssa.UnOp); ok && ld.Op == token.MUL {
+							if fa, ok := ld.X.(*ssa.FieldAddr); ok && namedOf(fa.X.Type()) == runnerT {
+								recv, what = fa.X, "writes the map in field "+fieldNameOf(fa)
+								storedFields = []string{fieldNameOf(fa) + "[map]"}
+							}
+						}
 					case *ssa.Call:
 						c := x.Common()
 						callee := c.StaticCallee()
@@ -391,6 +414,35 @@ func runC32(p *Prog, r *Result) {
 				return true
 			}
 			for i, st := range blk.List {
+				// defer close(X.done): deferred calls run in reverse order, after every plain statement
+				if ds, ok := st.(*ast.DeferStmt); ok && isBuiltinCall(info, ds.Call, "close") && len(ds.Call.Args) == 1 {
+					if se, ok := ast.Unparen(ds.Call.Args[0]).(*ast.SelectorExpr); ok && se.Sel.Name == "done" && bgT != nil && namedOf(info.TypeOf(se.X)) == bgT {
+						x := exprString(se.X)
+						before, after := false, false
+						for j, s2 := range blk.List {
+							stores := false
+							ast.Inspect(s2, func(q ast.Node) bool {
+								if as, ok := q.(*ast.AssignStmt); ok && len(as.Lhs) == 1 {
+									if y, ok := isExitDeref(as.Lhs[0]); ok && y == x {
+										stores = true
+									}
+								}
+								return true
+							})
+							if !stores {
+								continue
+							}
+							if _, deferred := s2.(*ast.DeferStmt); deferred && j < i {
+								after = true // registered earlier, so it runs after the close
+							} else {
+								before = true
+							}
+						}
+						r.Check(before && !after, "R32c", "interp."+fd.Name.Name+"#close("+x+".done)", ds.Pos(), "*"+x+".exit is stored by a plain statement or by a deferred function registered after this one, which therefore runs first",
+							"the deferred close of the done channel runs before the deferred function that stores the exit status (deferred calls run last-registered-first): `wait` is released and reads a status that is not the job's yet")
+						continue
+					}
+				}
 				// close(X.done)
 				es, ok := st.(*ast.ExprStmt)
 				if !ok {
